@@ -1,6 +1,8 @@
 //! scenario families
 use crate::rt::{Actor, DetResult, Rng};
 
+pub mod mq_mpsc;
+pub mod mq_spsc;
 pub mod mutex;
 pub mod sem;
 pub mod syncflag;
@@ -24,12 +26,14 @@ pub fn build_det(family: &str, rng: &mut Rng, tier: u32) -> Option<Built> {
         "mutex" => Some(mutex::build(rng, tier)),
         "sem" => Some(sem::build(rng, tier)),
         "syncflag" => Some(syncflag::build(rng, tier)),
+        "mq_mpsc" => Some(mq_mpsc::build(rng, tier)),
+        "mq_spsc" => Some(mq_spsc::build(rng, tier)),
         _ => None,
     }
 }
 
 pub fn det_families() -> Vec<&'static str> {
-    vec!["mutex", "sem", "syncflag"]
+    vec!["mutex", "sem", "syncflag", "mq_mpsc", "mq_spsc"]
 }
 
 pub mod live_park;
